@@ -98,6 +98,12 @@ def variants(spec: dict, tier: str) -> t.Iterator[t.Tuple[str, dict]]:
         for n in gen_ok:
             sp['nodes'][n]['generic'] = True
         yield 'generic', sp
+    if len(gen_ok) >= 2:
+        # two or more nodes derived with build_node from ONE base class
+        sp = json.loads(json.dumps(spec))
+        for n in gen_ok:
+            sp['nodes'][n]['generic'] = 'SharedBase'
+        yield 'generic-shared-base', sp
     names = list(spec['nodes'])
     sp = json.loads(json.dumps(spec))
     sp['nodes'][names[len(names) // 2]]['node_type'] = None
